@@ -1377,7 +1377,26 @@ def run(ck: Ck) -> None:
     built = ok_t and ok_g and ck.build(['Props/C11.vo', 'Gen/BspFormats_gen.vo', 'Gen/BspGlue_gen.vo'])
     from concurrent.futures import ThreadPoolExecutor
     pool = ThreadPoolExecutor(max_workers=4)
-    fut_hyg = pool.submit(ck.hygiene)
+    # (a process of its own: the scan is pure Python and would otherwise share the interpreter lock with the rest of the check)
+    import subprocess
+    import sys
+    hyg = subprocess.Popen([sys.executable, '-c', 'import json; from harness.common import scan_hygiene; print("HYGIENE-RESULT " + json.dumps(scan_hygiene()))'],
+                           stdout=subprocess.PIPE, stderr=subprocess.DEVNULL, text=True)
+
+    def hygiene_result() -> None:
+        import json
+        try:
+            out, _ = hyg.communicate(timeout=900)
+            line = [x for x in out.splitlines() if x.startswith('HYGIENE-RESULT ')][-1]
+            bad = json.loads(line[len('HYGIENE-RESULT '):])
+        except Exception:   # noqa: BLE001 - the helper process did not deliver: scan in this process
+            hyg.kill()
+            ck.hygiene()
+            return
+        ck.obligation('hygiene:no_admitted_axiom_parameter_or_unchecked_flag', not bad,
+                      'all .v files scanned (comments removed): none found' if not bad else '; '.join(bad[:20]))
+        if bad:
+            ck.tie_broken.append('hygiene: ' + '; '.join(bad[:5]))
     if built:
         fut_thm = pool.submit(theorems_parallel, ck, 'Props/C11.v', 8)
         obs: dict[str, str] = {}
@@ -1412,9 +1431,7 @@ def run(ck: Ck) -> None:
         fut_o1.result()
         fut_thm.result()
         lap('instance_obligations+assumptions')
-    fut_hyg.result()
     pool.shutdown(wait=True)
-    lap('hygiene')
     base: str | None = str(ck.scratch / 'base.bsp')
     try:
         with U.time_limit(U.IMPL_TIME_LIMIT_BIG):
@@ -1444,9 +1461,10 @@ def run(ck: Ck) -> None:
             guarded(ck, 'search', search, ck, base, wd)
             lap('search')
     finally:
+        hygiene_result()        # (a hit breaks a tie: the search is then repeated with the escalated budget, below)
         if ex is not None:
             finish_correspondences(ex, pending)
-            lap('correspondence_results')
+        lap('hygiene+correspondence_results')
     if base is None:
         for pref in ('instance:', 'correspondence:', 'translate:', 'build:'):
             ck.explain(pref)
